@@ -185,11 +185,26 @@ def parse_result(line):
     out = {}
     if line is None or line.startswith("CRASH"):
         return {"crash": Mat(3, 0, 0, [])}
-    for part in line.split(" ; "):
-        tk = part.split()
-        if len(tk) < 4: continue
-        out[tk[0]] = Mat(int(tk[1]), int(tk[2]), int(tk[3]), [float.fromhex(x) for x in tk[4:]])
+    try:
+        for part in line.split(" ; "):
+            tk = part.split()
+            if len(tk) < 4: continue
+            nl, nc = int(tk[2]), int(tk[3])
+            a = [float.fromhex(x) for x in tk[4:]]
+            if int(tk[1]) == 0 and len(a) != nl * nc: raise ValueError("size")
+            out[tk[0]] = Mat(int(tk[1]), nl, nc, a)
+    except (ValueError, IndexError):
+        # not a result line of the harness (library chatter on stdout, truncated line ...): treated like a crash of the case
+        return {"crash": Mat(3, 0, 0, []), "garbled": Mat(3, 0, 0, [])}
+    if not out: return {"crash": Mat(3, 0, 0, []), "garbled": Mat(3, 0, 0, [])}
     return out
+
+def abnormal(res):
+    """None for a normal result of a gains/ops case, else a short reason (crash/hang, garbled output, geometry not loaded)"""
+    if "garbled" in res: return "garbled harness output"
+    if "crash" in res: return "crash or hang of the harness"
+    if "geometry" in res: return "geometry could not be loaded (status %d)" % res["geometry"].st
+    return None
 
 def fro(a): return math.sqrt(math.fsum(x * x for x in a))
 
@@ -320,9 +335,32 @@ def worst_entries(name, A, B, nv, case, s, k, top=3):
 
 # ------------------------------------------------------------------ running pairs, bisection
 def run_lines(hb, wd, lines, tag="cases"):
-    rc, outs, err = core.run_harness(hb, lines, wd, timeout=1200, tag=tag, max_restarts=8,
-                                     env=dict(H_C02_ALARM=os.environ.get("H_C02_ALARM", "60" if os.environ.get("VERIF_TIER", "quick") != "thorough" else "600")))
+    try:
+        rc, outs, err = core.run_harness(hb, lines, wd, timeout=1200, tag=tag, max_restarts=8,
+                                         env=dict(H_C02_ALARM=os.environ.get("H_C02_ALARM", "60" if os.environ.get("VERIF_TIER", "quick") != "thorough" else "600")))
+    except Exception as e:          # the runner itself failed (binary missing, OS error): every case counts as crashed
+        outs = ["CRASH runner: %r" % (e,)] * len(lines)
+    outs = list(outs)[:len(lines)] + ["CRASH missing"] * max(0, len(lines) - len(outs))
     return [parse_result(o) for o in outs]
+
+def kernel_outputs(hb, wd, lines, tag="kern"):
+    """run_harness for kernel (`k`) lines, never raising and always returning len(lines) outputs"""
+    try:
+        rc, outs, err = core.run_harness(hb, lines, wd, tag=tag, max_restarts=8)
+    except Exception as e:
+        outs = ["CRASH runner: %r" % (e,)] * len(lines)
+    return list(outs)[:len(lines)] + ["CRASH missing"] * max(0, len(lines) - len(outs))
+
+def run_model_safe(wires):
+    try:
+        mo = list(core.run_model(wires))
+    except Exception as e:
+        mo = []
+    return mo[:len(wires)] + ["-1"] * max(0, len(wires) - len(mo))
+
+def fparse_safe(line):
+    try: return core.fparse(line)
+    except Exception: return None, None
 
 def _tri_coords(maps, tindex):
     T = maps["map_triangles"]; V = maps["map_vertices"]
@@ -372,10 +410,10 @@ def bisect(hb, wd, case, moved, s, k, failing):
                 if ca is None or cb is None: continue
                 lines.append(kline(9, [], [x for p in cb for x in p] + [x for p in ca for x in p]))
             meta.append((a, b))
-        rc, outs, err = core.run_harness(hb, lines, wd, tag="bisect_k")
+        outs = kernel_outputs(hb, wd, lines, tag="bisect_k")
         best = None
         for n, (a, b) in enumerate(meta):
-            _, f0 = core.fparse(outs[2 * n]); _, f1 = core.fparse(outs[2 * n + 1])
+            _, f0 = fparse_safe(outs[2 * n]); _, f1 = fparse_safe(outs[2 * n + 1])
             if not f0 or not f1: continue
             ex = [f0[0] * s ** 3] + [x * s ** 2 for x in f0[1:4]]
             dv = max(abs(x - y) / max(abs(x), abs(y), 1e-300) for x, y in zip(ex, f1) if x != y) if ex != f1 else 0.0
@@ -391,10 +429,10 @@ def bisect(hb, wd, case, moved, s, k, failing):
                 ca, _ = _tri_coords(r, a)
                 lines.append(kline(8, [10], list(c["dip_pos"][j]) + list(c["dip_mom"][j]) + [x for p in ca for x in p]))
             meta.append(a)
-        rc, outs, err = core.run_harness(hb, lines, wd, tag="bisect_k")
+        outs = kernel_outputs(hb, wd, lines, tag="bisect_k")
         best = None
         for n, a in enumerate(meta):
-            _, f0 = core.fparse(outs[2 * n]); _, f1 = core.fparse(outs[2 * n + 1])
+            _, f0 = fparse_safe(outs[2 * n]); _, f1 = fparse_safe(outs[2 * n + 1])
             if not f0 or not f1: continue
             ex = [f0[0]] + [x / s for x in f0[1:4]]
             dv = max([abs(x - y) / max(abs(x), abs(y), 1e-300) for x, y in zip(ex, f1) if x != y] or [0.0])
@@ -598,10 +636,10 @@ def run_kernel_metamorphic(ck, hb, n, transforms, label, rel=1e-9):
         margs = move_kernel_args(op, args, R, t, s)
         lines.append(kline(op, ints, [x for a in args for x in a])); lines.append(kline(op, ints, [x for a in margs for x in a]))
         cases.append((op, ints, args, cls, size, R, t, s))
-    rc, outs, err = core.run_harness(hb, lines, ck.workdir, tag="kern")
+    outs = kernel_outputs(hb, ck.workdir, lines, tag="kern")
     dist = {}; bad = 0
     for n_, (op, ints, args, cls, size, R, t, s) in enumerate(cases):
-        z0, f0 = core.fparse(outs[2 * n_]); z1, f1 = core.fparse(outs[2 * n_ + 1])
+        z0, f0 = fparse_safe(outs[2 * n_]); z1, f1 = fparse_safe(outs[2 * n_ + 1])
         key = "%s/%s" % (KNAMES[op], cls); dist[key] = dist.get(key, 0) + 1
         r = None
         if z0 is None or z1 is None or z0 != z1: r = (-2, z0, z1)
@@ -619,12 +657,15 @@ def replay_any(ck, hb, rp, label):
     if rp.get("kind") == "pair":
         case = case_from_json(rp["case"]); tr = rp["transform"]
         return run_pairs(ck, hb, [(rp.get("label", "replay"), case, [(tr["R"], tuple(tr["t"]), tr["s"], tr["k"])])], tol=rp.get("tol", 1e-9), what=rp.get("what", ""))
+    if rp.get("kind") == "sweep":
+        check_sigma_sweep(ck, hb, [(rp.get("label", "replay"), case_from_json(rp["case"]))], ks=tuple(rp["ks"]), tol=rp.get("tol", 1e-9))
+        return []
     if rp.get("kind") == "kernel":
         op = rp["op"]; args = [tuple(a) for a in rp["args"]]
         margs = move_kernel_args(op, args, rp["R"], tuple(rp["t"]), rp["s"])
         lines = [kline(op, rp["ints"], [x for a in args for x in a]), kline(op, rp["ints"], [x for a in margs for x in a])]
-        rc, outs, err = core.run_harness(hb, lines, ck.workdir, tag="kern")
-        z0, f0 = core.fparse(outs[0]); z1, f1 = core.fparse(outs[1])
+        outs = kernel_outputs(hb, ck.workdir, lines, tag="kern")
+        z0, f0 = fparse_safe(outs[0]); z1, f1 = fparse_safe(outs[1])
         r = (-2, z0, z1) if (z0 is None or z1 is None or z0 != z1) else (kernel_compare(op, f0, f1, rp["R"], rp["s"], rp["size"]) if z0[0] == 0 else None)
         if r is not None:
             ck.violation("%s kernel %s (%s)" % (label, KNAMES[op], rp["cls"]), "kernel %s: output %s expected %r got %r" % (KNAMES[op], r[0], r[1], r[2]), rp)
@@ -701,9 +742,9 @@ def check_decision_models(ck, hb, cases):
                 kmeta.append((n, e, len(ts), int(dn(e, 6))))
     nd = na = bad = 0
     if wires:
-        mo = core.run_model(wires)
+        mo = run_model_safe(wires)
         for (n, i, impl), w, o in zip(meta, wires, mo):
-            z, _ = core.fparse(o); nd += 1
+            z, _ = fparse_safe(o); nd += 1
             got = z[1] if z and len(z) > 1 else None
             want = impl if impl >= 0 else -1
             if got != want:
@@ -713,13 +754,16 @@ def check_decision_models(ck, hb, cases):
                                   note="correspondence break (the model of the decision no longer describes the code); the moved-problem runs of the same check are the search for an input on which the property itself fails"),
                              found_input=False)
     if klines:
-        rc, outs, err = core.run_harness(hb, klines, ck.workdir, tag="decmodel_k"); pos = 0; wl = []
+        outs = kernel_outputs(hb, ck.workdir, klines, tag="decmodel_k"); pos = 0; wl = []
         for (n, e, nt, impl) in kmeta:
-            ds = [core.fparse(o)[1][0] for o in outs[pos:pos + nt]]; pos += nt
+            ds = []
+            for o in outs[pos:pos + nt]:
+                z_, f_ = fparse_safe(o); ds.append(f_[0] if (z_ and z_[0] == 0 and f_) else float("nan"))
+            pos += nt
             wl.append(core.fcase("c02", [2], ds))
-        mo = core.run_model(wl)
+        mo = run_model_safe(wl)
         for (n, e, nt, impl), w, o in zip(kmeta, wl, mo):
-            z, _ = core.fparse(o); na += 1
+            z, _ = fparse_safe(o); na += 1
             if not z or len(z) < 2 or z[1] != impl:
                 bad += 1
                 ck.violation("decision model: nearest triangle differs", "model %d electrode %d: dist_point_geom picks triangle %d of the mesh, the model (argmin_first over the C++ distances) %s" % (n, e, impl, z),
@@ -727,3 +771,62 @@ def check_decision_models(ck, hb, cases):
                                   note="correspondence break (the model of the scan no longer describes the code); the moved-problem runs of the same check are the search for an input on which the property itself fails"),
                              found_input=False)
     return dict(domain_lookups=nd, nearest_scans=na, mismatches=bad)
+
+
+# ------------------------------------------------------------------ conductivity sweep on ONE Geometry object
+SWEEP = (1.0, 1e-3, 1e3, 0.1, 1.0)
+
+def split_sweep(res, nsteps):
+    """{'X@i': Mat} -> [ {X: Mat} for each step ]; abnormal results are replicated"""
+    if abnormal(res): return [res] * nsteps
+    steps = [dict() for _ in range(nsteps)]
+    for name, m in res.items():
+        if "@" in name:
+            base, i = name.rsplit("@", 1)
+            if i.isdigit() and int(i) < nsteps: steps[int(i)][base] = m
+    return steps
+
+def check_sigma_sweep(ck, hb, items, ks=SWEEP, tol=1e-9, stats=None):
+    """the conductivity law exercised the way an API user sweeps conductivities: one Geometry, Domain::set_conductivity(k*sigma)
+    for the factors ks in sequence, everything reassembled each time; compared (a) with the law relative to the first step and
+    (b) with a freshly loaded geometry whose .cond file holds k*sigma.  items: [(label, case)]"""
+    stats = stats if stats is not None else {}
+    lines = []; index = []
+    for n, (label, case) in enumerate(items):
+        d = write_case(case, os.path.join(ck.workdir, "sw%d" % n))
+        lines.append("sweep %s all %s" % (d, " ".join(float(k).hex() for k in ks))); index.append((n, None))
+        for q, k in enumerate(ks):
+            df = write_case(transform_case(case, None, (0.0, 0.0, 0.0), 1.0, k), os.path.join(ck.workdir, "sw%d_f%d" % (n, q)))
+            lines.append("gains %s all" % df); index.append((n, q))
+    res = run_lines(hb, ck.workdir, lines, tag="sweep")
+    recs = []
+    pos = 0
+    for n, (label, case) in enumerate(items):
+        sw = res[pos]; fresh = res[pos + 1:pos + 1 + len(ks)]; pos += 1 + len(ks)
+        steps = split_sweep(sw, len(ks))
+        replay = dict(kind="sweep", label=label, case=case_to_json(case), ks=list(ks), tol=tol, replay_cmd="./check %s --replay <this file>" % ck.prop)
+        ab = abnormal(sw)
+        if ab and not all(abnormal(f) for f in fresh):
+            ck.violation("%s: in-place conductivity sweep abnormal" % label, "the sweep on one Geometry object ended with: %s, while freshly loaded geometries compute" % ab, replay)
+            continue
+        if ab: continue
+        c0 = cond_of(steps[0])
+        singular = c0 is not None and c0 > SINGULAR
+        for q, k in enumerate(ks):
+            stats["sweep_steps"] = stats.get("sweep_steps", 0) + 1
+            rec = dict(label=label, step=q, k=k, singular=singular); recs.append(rec)
+            if singular or abnormal(fresh[q]): continue
+            f1, l1 = compare_gains(steps[0], steps[q], case, 1.0, k / ks[0], tol)
+            f2, l2 = compare_gains(fresh[q], steps[q], case, 1.0, 1.0, tol)
+            rec["law"] = l1; rec["fresh"] = l2
+            for nm, v in list(l1.items()) + list(l2.items()):
+                if v == v and v != float("inf"): stats.setdefault("sweep_level", {})[nm] = max(stats.get("sweep_level", {}).get(nm, 0.0), v)
+            if f1 or f2:
+                ck.violation("%s: in-place conductivity sweep (%s)" % (label, ",".join(sorted({f[0] for f in f1 + f2}))),
+                             "one Geometry object, Domain::set_conductivity(k*sigma) for k in %s, reassembled each time: at step %d (k=%g) %s%s" %
+                             (list(ks), q, k,
+                              ("gains off the law relative to step 0: " + "; ".join("%s %s" % (f[0], f[2]) for f in f1[:4]) + ". ") if f1 else "",
+                              ("gains differ from a freshly loaded geometry with the same conductivities: " + "; ".join("%s %s" % (f[0], f[2]) for f in f2[:4])) if f2 else ""),
+                             replay)
+                break
+    return recs
